@@ -5,7 +5,9 @@ source line wide inside a call of 30 000 lines is then hit about never.  This
 engine takes one callable A at a time (seeded arguments), an intruder B that
 shares rarely used code with A (or A itself), and runs the pair once per
 *boundary* k of A - every entry into and every return from a pymeeus function
-during A - with B nested at that boundary.  Quick samples a few boundaries
+during A - with B nested at that boundary.  Every callable is swept twice: cold
+(A is the first call of the process) and warm (A was called once before, with
+equal arguments).  Quick samples a few boundaries
 per callable; thorough visits every boundary of every callable it can build
 from scratch.  Each (A, B, k) is an ordinary replayable plan, executed and
 judged by the same machinery as every other run.
@@ -63,7 +65,15 @@ def _with_receiver(rs, name_a):
     for _ in range(6):
         a = src._make_named(sim, 0, 0, name_a)
         if a is not None:
-            return prefix, a, src.next_id
+            # an intruder of the same callable, on the objects of the same pool (other arguments)
+            b_same = None
+            if ENTRIES[name_a].effect == 'pure':
+                for _ in range(4):
+                    src.queues = {}
+                    b_same = src._make_named(sim, 1, 1, name_a)
+                    if b_same is not None:
+                        break
+            return prefix, a, src.next_id, b_same
     return None
 
 
@@ -80,6 +90,10 @@ def build_pair(seed, idx):
     rng = src.rng
     stub = _StubSim()
     name_a = NAMES[idx % len(NAMES)]
+    # pair numbers beyond the catalogue are the WARM variants: A has already been called once, with equal
+    # arguments, when the swept call starts (a memo's hit path, a table that exists, is only run then; the
+    # cold variants run the first call of a process: lazy initialisation)
+    warm = (idx // len(NAMES)) % 2 == 1
     if name_a.endswith('#bad'):
         return None
     a = None
@@ -88,6 +102,7 @@ def build_pair(seed, idx):
         if a is not None:
             break
     prefix = []
+    b_same = None
     if a is None:
         # A needs a receiver (or another pooled object): build a few objects of its class first, in a fork
         try:
@@ -96,13 +111,17 @@ def build_pair(seed, idx):
             got = None
         if got is None:
             return None      # left to the random engines
-        prefix, a, nid = got
+        prefix, a, nid, b_same = got
         src.next_id = nid
-    name_b = src._affine(name_a) if rng.random() < 0.8 else name_a
+    name_b = src._affine(name_a) if rng.random() < (0.5 if warm else 0.8) else name_a
     bop = None
+    if b_same is not None and name_b == name_a:
+        bop = b_same
     cands = [name_b, name_a, src._affine(name_a), src._affine(name_a), name_a.split('.')[0] + '.__init__',
              'Coordinates.kepler_equation']
     for cand in cands:
+        if bop is not None:
+            break
         if cand.endswith('#bad') or cand not in ENTRIES:
             continue
         for _ in range(3):
@@ -117,6 +136,11 @@ def build_pair(seed, idx):
         op['points'] = []
         op['cpoints'] = []
     src.queues = {}
+    if warm:
+        w = copy.deepcopy(a)
+        a['id'] = max([bop['id'], a['id']] + [o['id'] for o in prefix]) + 1
+        src.next_id = a['id'] + 1
+        prefix = prefix + [w]
     plan = {'version': 1, 'seed': rs, 'cfg': dict(src.cfg, engine='N', sweep=True), 'ops': prefix + [a]}
     nb = int(b['calls'].get(name_a, 0))
     return plan, bop, nb, name_a, bop['name']
